@@ -41,7 +41,7 @@ pub struct Codec<G> {
 }
 
 pub trait Bind: Sized + Send + Sync + 'static {
-    type G: Group + ConstantTimeEq + ConditionallySelectable;
+    type G: Group + ConditionallySelectable;
     const NAME: &'static str;
     /// build small-order / non-subgroup alphabet members through `from_m`
     const COFACTOR_EXTRAS: bool = false;
@@ -53,6 +53,10 @@ pub trait Bind: Sized + Send + Sync + 'static {
         vec![]
     }
     fn scalar(k: &BigUint) -> Sc<Self>;
+    /// `ConstantTimeEq::ct_eq` where the type implements it
+    fn ct_eq(_a: &Self::G, _b: &Self::G) -> Option<bool> {
+        None
+    }
     /// unchecked constructor from coordinates (None: the API offers none)
     fn from_m(_p: &MP) -> Option<Self::G> {
         None
@@ -278,7 +282,7 @@ pub fn group_tasks<B: Bind>(t: &mut Tasks, al: &Arc<Alpha<B>>) {
         let (o, g, g2, ng) = (by("O").unwrap(), by("G").unwrap(), by("2G").unwrap(), by("-G").unwrap());
         let checks = [
             ("identity()", o == cv.id()),
-            ("generator() in subgroup, not identity", cv.in_subgroup(&g) && !cv.is_id(&g)),
+            ("generator() on the curve, not identity", cv.on_curve(&g) && !cv.is_id(&g)),
             ("generator().double()", g2 == cv.dbl(&g)),
             ("-generator()", ng == cv.neg(&g)),
         ];
@@ -287,6 +291,11 @@ pub fn group_tasks<B: Bind>(t: &mut Tasks, al: &Arc<Alpha<B>>) {
             if !ok {
                 v(&mut out, ty, "named-points", "wrong-result", format!("{n} disagrees with the model"), json!({"check": n}));
             }
+        }
+        // group::Group::generator(): "a fixed generator of the prime-order subgroup"
+        out.eval("generator-order", true);
+        if !cv.in_subgroup(&g) {
+            v(&mut out, ty, "generator", "not-in-prime-subgroup", "generator() is not in the prime-order subgroup (r*G != O) although group::Group documents it as a generator of that subgroup".into(), json!({"G_model": g.json(), "r": big::hexs(&cv.r)}));
         }
         out.sample = Some(json!({"type": ty, "alphabet": a.pts.iter().map(|p| json!({"name": p.name, "in_subgroup": p.in_sub, "model": p.m.json()})).collect::<Vec<_>>()}));
         out
@@ -399,7 +408,7 @@ pub fn group_tasks<B: Bind>(t: &mut Tasks, al: &Arc<Alpha<B>>) {
                             if (x == y) != same {
                                 bad.push(format!("`==` on {na} / {nb}"));
                             }
-                            if bool::from(x.ct_eq(&y)) != same {
+                            if B::ct_eq(&x, &y).unwrap_or(same) != same {
                                 bad.push(format!("`ct_eq` on {na} / {nb}"));
                             }
                         }
@@ -719,17 +728,17 @@ pub fn judge<G>(out: &mut CaseOut, ty: &str, c: &Codec<G>, cv: &MCurve, input: &
     let got = catch(|| (c.dec)(input));
     match got {
         Err(e) => {
-            out.eval(&format!("{}:panic", c.name), true);
+            out.eval(&format!("{ty}:{}:panic", c.name), true);
             v(out, ty, c.name, "panic", format!("decoder panicked on a {why} input: {e}"), detail(json!({})));
         }
         Ok(None) => {
-            out.eval(&format!("{}:reject[{why}]", c.name), true);
+            out.eval(&format!("{ty}:{}:reject[{why}]", c.name), true);
             if should_accept {
                 v(out, ty, c.name, "rejects-valid", "checked decoder rejects a canonical encoding of a valid element".into(), detail(json!({})));
             }
         }
         Ok(Some((m, re))) => {
-            out.eval(&format!("{}:accept[{why}]", c.name), true);
+            out.eval(&format!("{ty}:{}:accept[{why}]", c.name), true);
             if !should_accept {
                 v(out, ty, c.name, &format!("accepts-{why}"), format!("checked decoder accepts a {why} encoding"), detail(json!({"decoded": m.json(), "reencoded": hex(&re)})));
                 return;
@@ -923,12 +932,12 @@ pub fn codec_tasks<B: Bind>(t: &mut Tasks, al: &Arc<Alpha<B>>, thorough: bool, s
                 let bytes = match catch(|| (c.enc)(&pa.g)) {
                     Ok(b) => b,
                     Err(e) => {
-                        out.eval(&format!("{cname}:encode-panic"), nontrivial);
+                        out.eval(&format!("{ty}:{cname}:encode-panic"), nontrivial);
                         v(&mut out, ty, cname, "encode-panic", format!("encoder panicked on {}: {e}", pa.name), json!({"P": pa.name, "P_model": pa.m.json()}));
                         continue;
                     }
                 };
-                out.eval(&format!("{cname}:encode"), nontrivial);
+                out.eval(&format!("{ty}:{cname}:encode"), nontrivial);
                 if let Some(mb) = c.fmt.encode(cv, &pa.m) {
                     if mb != bytes {
                         v(&mut out, ty, cname, "encode-mismatch", format!("encoding of {} differs from the specified format", pa.name), json!({"P": pa.name, "P_model": pa.m.json(), "got": hex(&bytes), "expected": hex(&mb)}));
@@ -938,12 +947,9 @@ pub fn codec_tasks<B: Bind>(t: &mut Tasks, al: &Arc<Alpha<B>>, thorough: bool, s
                     v(&mut out, ty, cname, "encode-mismatch", "encoding has the wrong length".into(), json!({"P": pa.name, "len": bytes.len()}));
                     continue;
                 }
-                if valid_for_codec {
-                    judge(&mut out, ty, c, cv, &bytes, &format!("encoding of {}", pa.name));
-                } else {
-                    // encoding of an element outside the subgroup: the checked decoder must refuse it
-                    judge(&mut out, ty, c, cv, &bytes, &format!("encoding of non-subgroup element {}", pa.name));
-                }
+                // (the encoding of an element outside the subgroup must be refused by a decoder
+                // that promises the subgroup; `judge` decides that from the model)
+                judge(&mut out, ty, c, cv, &bytes, &format!("encoding of {}{}", if valid_for_codec { "" } else { "non-subgroup element " }, pa.name));
             }
             out.sample = Some(json!({"type": ty, "codec": cname, "points": a.pts.len()}));
             out
